@@ -275,12 +275,7 @@ end All
 /-- the first step of `getPath`: a root that is a reference is loaded from the storage -/
 def loadRoot (t : WT) : Res WN :=
   match t.root with
-  | .hashRef h _ =>
-    (match t.store.get h with
-      | none => .err .kvNotFound
-      | some data => match Cbor.decBase data with
-        | none => .err .other
-        | some p => deserializeNode p)
+  | .hashRef h _ => resolveHash t.hasDb t.store h
   | n => .ok n
 
 /-- the node `getPath` hands to `collectNodes` (`none`: loading the root or the marking walk failed) -/
@@ -332,23 +327,15 @@ theorem getPath_of_markedRoot (t : WT) (keys : List (List Nib)) (n' : WN) (h : m
 variable {H}
 
 theorem loadRoot_eq (t : WT) : loadRoot t = (match t.root with
-    | .hashRef h _ => resolveHash true t.store h
-    | n => .ok n) := by
-  unfold loadRoot resolveHash
-  cases t.root with
-  | hashRef h w =>
-    simp only [Bool.not_true, Bool.false_eq_true, if_false]
-    cases t.store.get h with
-    | none => rfl
-    | some data => cases Cbor.decBase data <;> rfl
-  | _ => rfl
+    | .hashRef h _ => resolveHash t.hasDb t.store h
+    | n => .ok n) := rfl
 
 /-- loading the root: the loaded node represents the same tree and is no reference -/
-theorem loadRoot_ok (hlen : ∀ x, (H x).length = 32) (t : WT) {ts : PT} {m : Nat}
+theorem loadRoot_ok (hlen : ∀ x, (H x).length = 32) (t : WT) {ts : PT} {m : Nat} (hdb : t.hasDb = true)
     (hrep : RepS H t.store t.root ts) (hp : Proper t.root) (hne : NoEmp t.root) (hu : Uniform m ts) (hok : PTOK ts) :
     ∃ root, loadRoot t = .ok root ∧ RepS H t.store root ts ∧ Proper root ∧ NoEmp root ∧ isRef root = false ∧
       root.weight = t.root.weight := by
-  rw [loadRoot_eq]
+  rw [loadRoot_eq, hdb]
   generalize t.root = n at hrep hp hne
   cases hrep with
   | nil => exact ⟨_, rfl, Rep.nil, hp, hne, rfl, rfl⟩
@@ -370,7 +357,7 @@ theorem getPath_marks (hlen : ∀ x, (H x).length = 32) (t : WT) {ts : PT} {m : 
       getPath H t keys = ({ t with root := (collectNodes H n').1 }, .ok (Cbor.encTrie (collectNodes H n').2)) ∧
       RepS H t.store n' ts ∧ Proper n' ∧ NoEmp n' ∧ isRef n' = false ∧ n'.weight = t.root.weight ∧
       ∀ k ∈ keys, Marked n' k := by
-  obtain ⟨root, hl, r1, r2, r3, r4, r5⟩ := loadRoot_ok hlen t hrep hp hne hu hok
+  obtain ⟨root, hl, r1, r2, r3, r4, r5⟩ := loadRoot_ok hlen t hdb hrep hp hne hu hok
   obtain ⟨g1, g2, g3, g4, g5, g6, g7, g8, g9, g10, g11⟩ := markAll_ok (s := t.store) hlen hu hok keys root hlk r1 r2 r3
   have hmr : markedRoot t keys = some (markAll true t.store root keys).node := by
     simp only [markedRoot, hl, hdb, g1]
